@@ -19,6 +19,11 @@ problem[y][x] = 0 empty, n >= 1 clue, -1 clue of unknown size.  Answer: is_white
 
 MODULE = "cspuz.puzzle.nurikabe"
 
+# Interpretation switch: True = a grid without any black cell satisfies rule 3 vacuously (pzprjs reading, used
+# here); False = at least one black cell is required (what solve_nurikabe implements: division_connected is
+# called without allow_empty_group, so the black group 0 must be non-empty).
+ALLOW_ALL_WHITE = True
+
 
 def run_real(mod, inst):
     h, w = inst["height"], inst["width"]
@@ -69,7 +74,10 @@ def check(h, w, problem, white, unknown_low=None):
         for x in range(w - 1):
             if not (white[y][x] or white[y][x + 1] or white[y + 1][x] or white[y + 1][x + 1]):
                 return False
-    if len(_components(h, w, white, False)) > 1:
+    blacks = _components(h, w, white, False)
+    if len(blacks) > 1:
+        return False
+    if not blacks and not ALLOW_ALL_WHITE:
         return False
     for comp in _components(h, w, white, True):
         clues = [problem[y][x] for (y, x) in comp if _is_clue(problem[y][x])]
